@@ -45,6 +45,8 @@ def gen_world_files(rng):
     files['pa/sa.py'] = 'import ma\n\n\ndef func(z):\n    return ma.func(z)\n\n\nCONST_SA = ma.NUM\n'
     files['pa/sb.py'] = 'from pa.sa import func as sa_func\n\nres_sb = sa_func(1)\n'
     # a nested sub-package that refers to the top-level package (changed by a package rename)
+    # a module that refers to itself by name: renaming it moves the file AND changes its text
+    files['selfref.py'] = 'import selfref\n\n\nSELF_X = 1\nprint(selfref.SELF_X)\n'
     files['pa/inner/__init__.py'] = ''
     files['pa/inner/deep.py'] = 'import pa\nfrom pa import sa\n\nDEEP = sa.func(1)\nX_DEEP = pa.sa.CONST_SA\n'
     main = [
@@ -116,6 +118,9 @@ REFACTORINGS = [
     ('rename', 'pa/sa.py', 'CONST_SA', 1, {}),
     ('rename', 'pa/inner/deep.py', 'import pa', 8, {}),   # package rename seen from a nested sub-package
     ('rename', 'pa/inner/deep.py', 'DEEP', 1, {}),
+    ('rename', 'selfref.py', 'import selfref', 9, {}),    # module rename: the moved file itself changes
+    ('rename', 'selfref.py', 'selfref.SELF_X', 3, {}),
+    ('rename', 'selfref.py', 'SELF_X', 1, {}),
     ('inline', 'main.py', 'temp', 1, {}),
     ('inline', 'main.py', 'value', 1, {}),
     ('inline', 'main.py', 'big', 1, {}),
@@ -145,6 +150,10 @@ def gen_case(seed, tier, i):
                      'identity': rng.random() < 0.12,
                      'inspect_after': rng.random() < 0.6,
                      'back': rng.random() < 0.3,
+                     # the project root is not always the directory everything lives in: with the root
+                     # set to a sub-directory most files of the step lie OUTSIDE the project (diff headers
+                     # then carry absolute paths)
+                     'proj_sub': rng.random() < 0.15,
                      'between': rng.choice(['none', 'none', 'gc', 'advance', 'host_restart', 'query'])})
     knobs = {'fast_parser': rng.random() < 0.8, 'cached_size_trigger': rng.choice([2, 600])}
     return {'id': 'c07-%d' % i, 'init': init, 'plan': plan, 'knobs': knobs, 'hashseed': rng.randint(0, 2)}
@@ -299,13 +308,26 @@ def apply_hunks(old, hunks):
     return ''.join(out)
 
 
-def check_diff(desc, originals):
+def _world_rel(name, proj_rel):
+    """a path as the diff prints it (relative to the project root, or absolute = '<w>/...' when the file
+    lies outside the project) -> path relative to the world"""
+    if name.startswith('<w>/'):
+        return name[4:]
+    if proj_rel and not name.startswith('<'):
+        import posixpath
+        return posixpath.normpath(posixpath.join(proj_rel, name))
+    return name
+
+
+def check_diff(desc, originals, proj_rel=''):
     """I3; originals: rel path -> text jedi started from. returns list of problems"""
     probs = []
     try:
         renames, files = parse_unified(desc['diff'])
     except ValueError as e:
         return [['diff_malformed', str(e)]]
+    renames = [(_world_rel(a, proj_rel), _world_rel(b, proj_rel)) for a, b in renames]
+    files = [(_world_rel(a, proj_rel), _world_rel(b, proj_rel), h) for a, b, h in files]
     want_ren = sorted((_rel(a) or a, _rel(b) or b) for a, b in desc['renames'])
     if sorted(renames) != want_ren:
         probs.append(['diff_renames', {'diff': sorted(renames), 'api': want_ren}])
@@ -418,7 +440,9 @@ class C07(base.Engine):
                     args['c'] = col
                     args['ul'] = line
                     args['uc'] = col + extra['len']
-                seg = [{'op': 'script', 'sid': sid, 'code': code, 'path': path, 'project': {'path': '.'}},
+                proj = {'path': 'pa/inner', 'added_sys_path': ['.']} if step.get('proj_sub') else {'path': '.'}
+                proj_rel = 'pa/inner' if step.get('proj_sub') else ''
+                seg = [{'op': 'script', 'sid': sid, 'code': code, 'path': path, 'project': proj},
                        {'op': 'refactor', 'sid': sid, 'rid': 'r', 'kind': kind, 'args': args,
                         'order': step.get('order', 'code_first')}]
                 for _ in range(step['inspect']):
@@ -474,7 +498,7 @@ class C07(base.Engine):
                             if res.get('diff_again') != res.get('diff') or res.get('cf_diff_unstable'):
                                 problems.append(('get_diff_not_repeatable', {'op': ev['i'], 'kind': kind, 'args': args,
                                                                              'files': res.get('cf_diff_unstable')}))
-                            for pr in check_diff(res, originals):
+                            for pr in check_diff(res, originals, proj_rel):
                                 f = pr[1].get('file') if isinstance(pr[1], dict) else \
                                     (pr[1] if isinstance(pr[1], str) else None)
                                 name = pr[0]
